@@ -30,7 +30,14 @@ import (
 //	       type of the key (bare bool/int, double-quoted string/duration/enum)
 //	    Q: the same, always written as a double-quoted YAML string (weakly typed input)
 //	    A: how the file is selected: A:flag (-C <file>, the default when a file item is present),
-//	       A:long (--config_file=<file>), A:cwd (a file called config.yaml in the working directory, no flag)
+//	       A:long (--config_file=<file>), A:cwd (a file called config.<ext> in the working directory, no flag:
+//	       only config.yaml is the default file), A:env (BHS_CONFIG_FILE=<file>)
+//	    X: the extension (= format) of the selected file: yaml (default), yml, json, toml; X:none = no
+//	       extension and any other word = that extension with YAML text inside (cmd/main.go at HEAD: viper
+//	       refuses an extension it does not know)
+//	    D:<ext>:<dotted.key>=<value>  a DECOY: a sibling of the selected file in the same directory with the
+//	       same stem and extension <ext> (json toml yaml yml properties env ini ...) that assigns the key.
+//	       Decoys are not the selected file: they must have no effect at all.
 //	    obs: "k=v;k=v;...;validate=<verdict>" for every leaf key in table order, or LOAD-ERROR
 //	validate;engine=<e>;sqlite=<path>;host=<h>;port=<n>;user=<u>;dbname=<d>;prepared=<0|1>;ppath=<0|1>;stat=<file|dir|missing|notdir|toolong>
 //	validate;nil
@@ -293,6 +300,81 @@ func (n *yamlNode) write(b *strings.Builder, indent string) {
 	}
 }
 
+func (n *yamlNode) writeJSON(b *strings.Builder, indent string) {
+	b.WriteString("{\n")
+	for i, name := range n.order {
+		k := n.kids[name]
+		fmt.Fprintf(b, "%s  %s: ", indent, strconv.Quote(name))
+		if k.kids != nil {
+			k.writeJSON(b, indent+"  ")
+		} else {
+			b.WriteString(k.leaf)
+		}
+		if i < len(n.order)-1 {
+			b.WriteString(",")
+		}
+		b.WriteString("\n")
+	}
+	b.WriteString(indent + "}")
+}
+
+func (n *yamlNode) writeTOML(b *strings.Builder, path string) {
+	for _, name := range n.order {
+		if k := n.kids[name]; k.kids == nil {
+			fmt.Fprintf(b, "%s = %s\n", name, k.leaf)
+		}
+	}
+	for _, name := range n.order {
+		if k := n.kids[name]; k.kids != nil {
+			sub := name
+			if path != "" {
+				sub = path + "." + name
+			}
+			fmt.Fprintf(b, "\n[%s]\n", sub)
+			k.writeTOML(b, sub)
+		}
+	}
+}
+
+// c20FileText renders a key tree in the format that goes with the extension.  flat lists the raw key=value
+// pairs for the line-oriented formats.
+func c20FileText(ext string, root *yamlNode, flat [][2]string) string {
+	var b strings.Builder
+	switch ext {
+	case "json":
+		root.writeJSON(&b, "")
+		b.WriteString("\n")
+	case "toml":
+		root.writeTOML(&b, "")
+	case "properties", "props", "prop", "env", "dotenv":
+		for _, kv := range flat {
+			fmt.Fprintf(&b, "%s=%s\n", kv[0], kv[1])
+		}
+	case "ini":
+		for _, kv := range flat {
+			i := strings.LastIndex(kv[0], ".")
+			if i < 0 {
+				fmt.Fprintf(&b, "%s=%s\n", kv[0], kv[1])
+			} else {
+				fmt.Fprintf(&b, "[%s]\n%s=%s\n", kv[0][:i], kv[0][i+1:], kv[1])
+			}
+		}
+	default:
+		root.write(&b, "")
+	}
+	return b.String()
+}
+
+func c20Scalar(kind, key, val string, types map[string]string) string {
+	if kind != "Q" {
+		switch types[key] {
+		case "bool", "int", "uint16":
+			return val
+		}
+	}
+	return strconv.Quote(val)
+}
+
 // c20Load runs one load case in a fresh subprocess and returns the observable.
 func c20Load(dir string, items []c20Item, types map[string]string) string {
 	_ = os.RemoveAll(dir)
@@ -308,7 +390,14 @@ func c20Load(dir string, items []c20Item, types map[string]string) string {
 	seenE, seenF := map[string]bool{}, map[string]bool{}
 	root := &yamlNode{}
 	haveFile := false
-	how := ""
+	how, selExt := "", ""
+	var flatSel [][2]string
+	type c20Decoy struct {
+		root *yamlNode
+		flat [][2]string
+	}
+	decoys, seenD := map[string]*c20Decoy{}, map[string]bool{}
+	var decoyOrder []string
 	for _, it := range items {
 		switch it.kind {
 		case "E":
@@ -322,35 +411,70 @@ func c20Load(dir string, items []c20Item, types map[string]string) string {
 				continue
 			}
 			seenF[it.name] = true
-			scalar := strconv.Quote(it.val)
-			if it.kind == "F" {
-				switch types[it.name] {
-				case "bool", "int", "uint16":
-					scalar = it.val
-				}
-			}
-			root.put(strings.Split(it.name, "."), scalar)
+			root.put(strings.Split(it.name, "."), c20Scalar(it.kind, it.name, it.val, types))
+			flatSel = append(flatSel, [2]string{it.name, it.val})
 			haveFile = true
 		case "A":
 			if how == "" {
 				how = it.name
 			}
+		case "X":
+			if selExt == "" {
+				selExt = it.name
+			}
+		case "D":
+			ext, key, ok := strings.Cut(it.name, ":")
+			if !ok || ext == "" || strings.ContainsAny(ext, "/.") || seenD[it.name] {
+				continue
+			}
+			seenD[it.name] = true
+			d, have := decoys[ext]
+			if !have {
+				d = &c20Decoy{root: &yamlNode{}}
+				decoys[ext] = d
+				decoyOrder = append(decoyOrder, ext)
+			}
+			d.root.put(strings.Split(key, "."), c20Scalar("F", key, it.val, types))
+			d.flat = append(d.flat, [2]string{key, it.val})
 		}
 	}
 	args := []string{"c20child", out}
+	if selExt == "" {
+		selExt = "yaml"
+	}
+	fdir, stem := filepath.Join(dir, "etc"), "selected"
+	if how == "cwd" {
+		fdir, stem = cwd, "config"
+	}
+	if err := os.MkdirAll(fdir, 0o755); err != nil {
+		return "HARNESS-ERROR " + err.Error()
+	}
+	selName := filepath.Join(fdir, stem+"."+selExt)
+	if selExt == "none" {
+		selName = filepath.Join(fdir, stem)
+	}
+	// the decoys first, so that the selected file wins should a decoy have the very same name
+	for _, ext := range decoyOrder {
+		name := filepath.Join(fdir, stem+"."+ext)
+		if name == selName && haveFile {
+			continue
+		}
+		d := decoys[ext]
+		if err := os.WriteFile(name, []byte(c20FileText(ext, d.root, d.flat)), 0o644); err != nil {
+			return "HARNESS-ERROR " + err.Error()
+		}
+	}
 	if haveFile {
-		var b strings.Builder
-		root.write(&b, "")
-		name := filepath.Join(dir, "selected.yaml")
 		switch how {
 		case "cwd":
-			name = filepath.Join(cwd, "config.yaml")
 		case "long":
-			args = append(args, "--config_file="+name)
+			args = append(args, "--config_file="+selName)
+		case "env":
+			env = append(env, "BHS_CONFIG_FILE="+selName)
 		default:
-			args = append(args, "-C", name)
+			args = append(args, "-C", selName)
 		}
-		if err := os.WriteFile(name, []byte(b.String()), 0o644); err != nil {
+		if err := os.WriteFile(selName, []byte(c20FileText(selExt, root, flatSel)), 0o644); err != nil {
 			return "HARNESS-ERROR " + err.Error()
 		}
 	}
